@@ -634,6 +634,42 @@ Fixpoint wf_node (n : node) : bool :=
       forallb wf_node kids
   end.
 
+(* the same rule for a forest written at top level *)
+Definition canon_forest (f : list node) : list node :=
+  if forallb is_tx f then tx_join f else map canon f.
+
+Definition unmixed_forest (f : list node) : bool :=
+  (forallb is_tx f || forallb is_el f) && forallb unmixed f.
+
+(* decidable equality of trees *)
+Fixpoint attrs_eqb (a b : list (str * str)) : bool :=
+  match a, b with
+  | [], [] => true
+  | (k, v) :: a', (k', v') :: b' => str_eqb k k' && str_eqb v v' && attrs_eqb a' b'
+  | _, _ => false
+  end.
+
+Fixpoint node_eqb (a b : node) {struct a} : bool :=
+  match a, b with
+  | Tx s, Tx t => str_eqb s t
+  | El n x k, El n' x' k' =>
+      str_eqb n n' && attrs_eqb x x' &&
+      (fix go (l m : list node) : bool :=
+         match l, m with
+         | [], [] => true
+         | p :: l', q :: m' => node_eqb p q && go l' m'
+         | _, _ => false
+         end) k k'
+  | _, _ => false
+  end.
+
+Fixpoint forest_eqb (l m : list node) : bool :=
+  match l, m with
+  | [], [] => true
+  | p :: l', q :: m' => node_eqb p q && forest_eqb l' m'
+  | _, _ => false
+  end.
+
 (* ====================================================================== *)
 (*  Specification: reading the value back from the documented format     *)
 (* ====================================================================== *)
